@@ -98,7 +98,7 @@ type Config struct {
 func DefaultConfig() Config {
 	return Config{
 		StepCost:       time.Microsecond,
-		MaxDecisions:   200000,
+		MaxDecisions:   400000,
 		MaxSimTime:     2 * time.Hour,
 		TaskStepBudget: 50_000_000,
 		DrainSteps:     2_000_000,
@@ -811,7 +811,19 @@ loop:
 			break loop
 		}
 		if s.decisions > s.cfg.MaxDecisions {
-			s.end("infra", "decision bound of the simulator exceeded", "")
+			armed := ""
+			for _, t := range s.tasks {
+				if t.state != StDone && t.boundName != "sim-task-budget" && t.boundName != "drain" {
+					armed = t.boundName
+				}
+			}
+			if armed != "" {
+				// tasks are still running under a property's step bound and have kept
+				// the scheduler busy for its whole decision budget: they do not stop
+				s.end("runaway", fmt.Sprintf("tasks still running %d scheduling decisions after %q", s.decisions, armed), armed+"@decisions")
+			} else {
+				s.end("infra", "decision bound of the simulator exceeded", "")
+			}
 			s.mu.Unlock()
 			break loop
 		}
